@@ -52,7 +52,12 @@ class Idx:
         self.Err = {n: ev('event::StepError', n) for n in ('NotFound', 'AmbiguousMatch', 'Panic')}
         self.RS = {n: sf('event::RetryableScenario<W>', n) for n in ('event', 'retries')}
         self.Ret = {n: sf('event::Retries', n) for n in ('current', 'left')}
-        self.State = {n: ev('writer::summarize::State', n) for n in ('InProgress', 'FinishedButNotOutput', 'FinishedAndOutput')}
+        # whatever states the summariser has: only `InProgress` is known by name (the others are told apart by what the
+        # code does from them, see summ_event)
+        svs = prog.tables.enum_variants('writer::summarize::State') or []
+        self.State = {v[0]: i for i, v in enumerate(svs)}
+        if 'InProgress' not in self.State:
+            raise Inconclusive('writer::summarize::State has no variant InProgress')
 
 
 class SymState:
